@@ -211,7 +211,9 @@ impl TryFrom<Pair<'_, Rule>> for Variable {
         match pair.as_rule() {
             Rule::r#true => Ok(Variable::Bool(true)),
             Rule::r#false => Ok(Variable::Bool(false)),
-            Rule::minus_int => parse_int(pair.into_inner().next().unwrap(), true).map(Variable::Int),
+            Rule::minus_int => {
+                parse_int(pair.into_inner().next().unwrap(), true).map(Variable::Int)
+            }
             Rule::int => parse_int(pair, false).map(Self::from),
             Rule::minus_float => {
                 let Ok(value) = pair.as_str().replace([' ', '_'], "").parse::<f64>() else {
